@@ -191,7 +191,7 @@ func c08GenConfig(r *rand.Rand, h *scen.History, k int) c08Config {
 
 func runC08(c *fw.Ctx) {
 	c08RecoveryPatterns(c)
-	n := c.Pick(1000, 30000) / c.NShards
+	n := c.Pick(600, 30000) / c.NShards
 	r := c.Rand(uint64(800 + c.Shard))
 	for i := 0; i < n; i++ {
 		h := genHistory(r, histOpts{Len: 5 + r.IntN(14)})
@@ -220,7 +220,7 @@ func runC08(c *fw.Ctx) {
 // where the verifier records checkpoints in the middle of a run.
 func c08RecoveryPatterns(c *fw.Ctx) {
 	idx := 0
-	stride := c.Pick(3, 1)
+	stride := c.Pick(5, 1)
 	for L := 1; L <= 3; L++ {
 		total := 1
 		for i := 0; i < L; i++ {
